@@ -27,6 +27,7 @@ def run(ctx):
     check_alias(ctx, prog)
     check_width(ctx, prog)
     check_numeric_model(ctx, prog)
+    check_parse_back(ctx, prog)
     check_negate(ctx, prog)
     check_printf(ctx, prog)
     check_resize_keep(ctx, prog)
@@ -1049,3 +1050,57 @@ def check_split_dic(ctx, prog, rule='C03.split'):
         return 0
     ctx.check(bad is None, rule, f['pq'], role, fwhere(f), 'interpreted on %d texts' % runs, bad or '')
     return 1
+
+
+def check_parse_back(ctx, prog):
+    """C03.parse: the second half of the integer identities - the decimal text of a value converted back gives the value.  The
+    conversion members (`operator int`, `operator unsigned`, `operator Long` / `toLong()`, with the helpers they call interpreted
+    and glibc's atoi / atol modelled) are interpreted on the decimal text of representative values of their type: limits, 0,
+    +-1, powers of ten and their neighbours; for `toLong()` also the texts of 64-bit unsigned values (read back through the
+    same routine and reinterpreted, which is how ULong round-trips).  Arithmetic is two's-complement as on the build target."""
+    import scansim
+    targets = [('operator int', 32, True), ('operator unsigned int', 32, False), ('operator long long', 64, True), ('toLong', 64, True), ('toLong', 64, False)]
+    n = 0
+    for name, bits, sg in targets:
+        fs = [g for g in prog.fn('asl::String::' + name) if g.get('body')]
+        if not fs:
+            continue
+        f = fs[0]
+        ctx.analysed(f)
+        role = '%s:%s text converted back' % (name, 'signed' if sg else 'unsigned')
+        lo = -2 ** (bits - 1) if sg else 0
+        hi = 2 ** (bits - 1) - 1 if sg else 2 ** bits - 1
+        reps = {lo, hi, 0, 1, lo + 1, hi - 1, 7, 42}
+        if sg:
+            reps |= {-1, -7, -42}
+        for k in range(0, 20):
+            reps |= {10 ** k - 1, 10 ** k, 10 ** k + 1, -(10 ** k) - 1, -(10 ** k), -(10 ** k) + 1}
+        reps = sorted(x for x in reps if lo <= x <= hi)
+        bad = und = None
+        for x in reps:
+            text = str(x)
+            bufs = {'T': [ord(c) for c in text] + [0]}
+            r = scansim.Run(prog, f, bufs, call_ptrs={'str': ('P', 'T', 0)}, methods={'*': 'interp'}, mems={'_len': len(text)}, objects=True)
+            ctx.evaluations += 1
+            try:
+                got = r.run()
+            except scansim.OOB as o:
+                bad = '"%s" converted back reads outside the string: %s' % (text, o)
+                break
+            except (scansim.Unsupported, TypeError, KeyError, ValueError) as u:
+                und = '"%s": %s' % (text, u)
+                break
+            if not isinstance(got, int):
+                und = '"%s": result %r' % (text, got)
+                break
+            got &= (1 << bits) - 1
+            if got != x & ((1 << bits) - 1):
+                back = got - (1 << bits) if sg and got >= 1 << (bits - 1) else got
+                bad = 'the text "%s" of the %d-bit %s value %d converts back to %d' % (text, bits, 'signed' if sg else 'unsigned', x, back)
+                break
+        if und:
+            ctx.undecided('C03.parse', f['pq'], role, fwhere(f), 'outside the interpreted fragment: %s' % und)
+        else:
+            n += 1
+            ctx.check(bad is None, 'C03.parse', f['pq'], role, fwhere(f), 'interpreted on the decimal texts of %d representative values' % len(reps), bad or '')
+    ctx.floor('C03.parse conversions interpreted', n, 3)
